@@ -3,7 +3,7 @@
    failure-path leaks fixed; see known_findings/C16.json), so there is no
    _refuted / _unless pair. *)
 From Coq Require Import ZArith List Bool Lia.
-From Verif Require Import C16.Model C16.Spec C16.Proofs C16.ProofsD.
+From Verif Require Import C16.Model C16.Spec C16.Proofs C16.ProofsD C16.ProofsP.
 Import ListNotations.
 Open Scope Z_scope.
 
@@ -128,6 +128,34 @@ Example C16_deleted_nonvacuous :
            [Put 3 {| vid := 13; vsz := 8 |}; Put 4 {| vid := 14; vsz := 11 |}; Get 1]) =
     [OPut true [(2, 12)]; OErr []; OVal None []] /\
   snd (run c [Poison 11; Delete 1; Get 1]) = [ODone []; ODone []; OVal (Some 11) []].
+Proof. vm_compute. repeat split; reflexivity. Qed.
+
+(* The errors of Put are exactly the announced ones.  In any reachable state,
+   a Put of a value whose Size() works and fits the capacity SUCCEEDS whenever
+   no resident value's Size() currently fails — whatever failed before, however
+   full the cache is (eviction always makes room).  So Put fails only for: a
+   value whose size cannot be computed, an oversize value, or a resident value
+   whose size cannot be computed; a failure never wedges the cache (once the
+   failing values are healed or gone, Puts work again). *)
+Theorem C16_put_fails_only_for_announced_reasons : forall cp ops0 k v,
+  0 <= cp < two64 -> Forall wf_op ops0 ->
+  let c := fst (run (empty cp) ops0) in
+  mem (vid v) (bad c) = false ->
+  (forall e, In e (ll c) -> mem (vid (eval e)) (bad c) = false) ->
+  0 <= vsz v <= cap c ->
+  exists ev cbs, snd (step c (Put k v)) = OPut ev cbs.
+Proof. exact reach_put_succeeds. Qed.
+Print Assumptions C16_put_fails_only_for_announced_reasons.
+
+(* each of the three reasons does make Put fail (tightness), and after a
+   failure caused by a poisoned resident value, healing it makes the same Put
+   succeed *)
+Example C16_put_errors_tight :
+  let c := fst (run (empty 10) [Put 1 {| vid := 11; vsz := 6 |}; Put 2 {| vid := 12; vsz := 3 |}]) in
+  snd (run c [Poison 20; Put 3 {| vid := 20; vsz := 1 |}]) = [ODone []; OErr []] /\
+  snd (step c (Put 3 {| vid := 13; vsz := 11 |})) = OErr [] /\
+  snd (run c [Poison 11; Put 3 {| vid := 13; vsz := 5 |}; Heal 11; Put 3 {| vid := 13; vsz := 5 |}]) =
+    [ODone []; OErr []; ODone []; OPut true [(1, 11)]].
 Proof. vm_compute. repeat split; reflexivity. Qed.
 
 (* Concurrency: for ANY number of concurrent callers, from ANY state and under
